@@ -42,7 +42,7 @@ def run(eng, tier):
         calc = ROUND0(MUL(rate, total)); fee = M(v, 'fee'); fv = p.variant_of(fee)
         tgt = F(SOMEV(fee), 'amount') if fv == 'Some' else I(0)
         ok = any(f[0] == 'val' and f[2] is True and f[1][0] == 'eq' and ((f[1][1] == tgt and c07.fee_eq(dom, f[1][2], calc)) or (f[1][2] == tgt and c07.fee_eq(dom, f[1][1], calc))) for f, _, _ in p.facts)
-        eng.ob(ok and bfi in ('Some', 'None'), PROP, 'entry-fee', 'fee=' + str(fv), 'CreateBid: the fee escrowed (%s) is not required to equal round-half-away(configured bid rate x price x size)' % ('fee.amount' if fv == 'Some' else 'absent = 0'), detail=p.describe(20),
+        eng.ob(ok and bfi in ('Some', 'None'), PROP, 'entry-fee', 'fee=' + str(fv), 'CreateBid: the fee escrowed (%s) is not required to equal round-half-away(configured bid rate x price x size)' % ('fee.amount' if fv == 'Some' else 'absent = 0'), where=p, detail=p.describe(20),
                sample={'rule': 'entry-fee', 'formula': K(calc)[:120]})
         if fv == 'Some':
             eng.ob(p.holds(EQ(F(SOMEV(fee), 'denom'), M(v, 'quote')), True) is not None, PROP, 'entry-fee', 'denom', 'CreateBid: the fee is not required to be in the quote denomination')
@@ -52,7 +52,7 @@ def run(eng, tier):
     for p in eng.paths('execute', 'ok', 'ExecuteMatch'):
         dom = Dom(p); dom.assume_bid(c02.BID, p.variant_of(bs.FEE) == 'Some')
         spec, why = c02.settle_spec(p, dom, bs)
-        eng.ob(spec is not None, PROP, 'match-fees', 'classify:' + str(why), 'cannot identify the fee computation of a successful match path: %s (the ask fee must be round0(ask rate x executed price x size), the bid fee remF - round0((remQ - gross)/Q * F))' % why, detail=p.describe(20))
+        eng.ob(spec is not None, PROP, 'match-fees', 'classify:' + str(why), 'cannot identify the fee computation of a successful match path: %s (the ask fee must be round0(ask rate x executed price x size), the bid fee remF - round0((remQ - gross)/Q * F))' % why, where=p, detail=p.describe(20))
         if spec is None: continue
         nmatch += 1
         eqv = Equiv(p, [(bs.fdenom, bs.qdenom)] if spec['has_fee'] else [])
@@ -61,7 +61,7 @@ def run(eng, tier):
         for name, d, a, to in spec['legs']:
             if name not in ('ask-fee', 'bid-fee', 'fee-refund', 'proceeds'): continue
             hit = any(to == t2 and (d == d2 or eqv.same(d, d2)) and dom.eq(a, a2) for d2, a2, t2 in act)
-            eng.ob(hit, PROP, 'match-fees', name, 'match: the %s leg (%s of %s to %s) is not paid as specified' % (name, dom.show(a)[:160], K(d), K(to)), detail=p.describe(20),
+            eng.ob(hit, PROP, 'match-fees', name, 'match: the %s leg (%s of %s to %s) is not paid as specified' % (name, dom.show(a)[:160], K(d), K(to)), where=p, detail=p.describe(20),
                    sample={'rule': 'match-fees', 'leg': name, 'amount': K(a)[:140], 'to': K(to)})
         check_I7(eng, PROP, p)
     for v in ('RejectBid', 'CancelBid', 'ExpireBid', 'CreateBid'):
